@@ -2,6 +2,7 @@ from __future__ import annotations
 
 import ssl
 import sys
+import time
 import types
 import typing
 
@@ -229,7 +230,12 @@ class ConnectionPool(RequestInterface):
                 self._close_connections(closing)
 
                 # Wait until this request has an assigned connection.
+                queued_at = time.monotonic()
                 connection = pool_request.wait_for_connection(timeout=timeout)
+                if timeout is not None:
+                    # The pool timeout limits the time that the request spends
+                    # queued in all, if it ends up being queued again below.
+                    timeout = max(timeout - (time.monotonic() - queued_at), 0.0)
 
                 try:
                     # Send the request on the assigned connection.
